@@ -45,7 +45,10 @@ def gen_case(rng):
     s = regs.S()
     prog = [("SNew", s), ("SSetSR", s, SR)]
     modes = {}
-    any_out = False
+    # about half of the cases stay completely inside the ranges (the package is produced and examined in full);
+    # the others leave a range at exactly one (position, channel)
+    klass = rng.choice(["inside"] * 9 + ["voltage"] * 6 + ["sequencing"] * 5)
+    any_out = klass != "voltage"
     order = list(range(1, npos + 1))
     rng.shuffle(order)                      # positions are filled in arbitrary order
     for pos in order:
@@ -57,7 +60,7 @@ def gen_case(rng):
             lo, hi = off[c] - ampl[c] / 2, off[c] + ampl[c] / 2
             mode = rng.choice(["in", "in", "in", "at_hi", "at_lo", "above", "below", "ulp_above", "ulp_below"])
             if mode in ("above", "below", "ulp_above", "ulp_below"):
-                if any_out and rng.random() < 0.7:
+                if any_out:
                     mode = "in"
                 else:
                     any_out = True
@@ -95,12 +98,17 @@ def gen_case(rng):
     for c in chans:
         prog += [("SSetAmp", s, c, ampl[c]), ("SSetOff", s, c, off[c])]
     seq_bad = False
+    seq_edge = klass == "sequencing"       # otherwise every sequencing value is inside its range
     for pos in range(1, npos + 1):
         if rng.random() < 0.6:
             fld = rng.choice(["twait", "nrep", "jump_target", "goto", "jump_input"])
             val = {"twait": rng.choice([0, 1, 1, 0, 2, -1]), "nrep": rng.choice([0, 1, 65535, 65536, 65536, 65537, -1]),
                    "jump_target": rng.choice([-1, 0, npos, npos, npos + 1, -2]),
                    "goto": rng.choice([0, npos, npos, 1, npos + 1, -1]), "jump_input": rng.choice([0, 3, 7])}[fld]
+            if not seq_edge:
+                val = {"twait": rng.choice([0, 1]), "nrep": rng.choice([1, 2, 65535, 65536]),
+                       "jump_target": rng.choice([-1, 0, 1, npos]), "goto": rng.choice([0, 1, npos]),
+                       "jump_input": rng.choice([0, 3, 7])}[fld]
             prog.append(("SSetSequencing", s, pos, fld, val))
     i = rng.randrange(nch + 1)
     a = rng.randrange(nch + 1)
